@@ -96,6 +96,16 @@ def decide(prop, args, P, REG, targets, assumed, results, seed, t0, known):
         violations.append({"obligation": name, "status": "undischarged", "detail": f"function left the verifier's reach: {why}", "model": None, "function": tgt,
                            "inputs": rr.get("reach_inputs"), "replay_meta": rr.get("replay_meta")})
 
+    for sb in getattr(args, "standins", None) or []:
+        standins.append({k: v for k, v in sb.items() if k != "violations"} | {"violations": len(sb.get("violations") or [])})
+        if sb.get("error"):
+            errors.append(f"bounded stand-in for {sb['function']} could not run: {sb['error'][:200]}")
+        for bv in sb.get("violations") or []:
+            total += 1
+            violations.append({"obligation": f"{sb['function']}/bounded.{sb['clause'].replace(' ', '-')}", "status": "refuted",
+                               "detail": f"measured on the real code: {bv['steps']} line events for an input of {bv['len']} bytes exceed the bound ({sb['bound']}); outcome {bv['outcome']}",
+                               "model": None, "function": sb["function"], "inputs": None, "replay_meta": None, "measured": bv})
+
     exit_code = 0
     if errors:
         for e in errors:
@@ -128,13 +138,17 @@ def decide(prop, args, P, REG, targets, assumed, results, seed, t0, known):
             "tier": tier,
         }
         confirmed = None
-        try:
-            from pyvc.replay_driver import try_replay
+        if v.get("measured"):
+            confirmed = True  # a measurement on the real code: the failing input is in the file
+            rep["replay"] = {"measured_on_real_code": v["measured"]}
+        else:
+            try:
+                from pyvc.replay_driver import try_replay
 
-            confirmed, observation = try_replay(prop, v, P, REG, args.repo)
-            rep["replay"] = observation
-        except Exception as e:  # replay machinery failure never changes the verdict
-            rep["replay"] = {"error": f"{type(e).__name__}: {e}"}
+                confirmed, observation = try_replay(prop, v, P, REG, args.repo)
+                rep["replay"] = observation
+            except Exception as e:  # replay machinery failure never changes the verdict
+                rep["replay"] = {"error": f"{type(e).__name__}: {e}"}
         rep["confirmed_on_real_code"] = bool(confirmed)
         with open(path, "w") as f:
             json.dump(rep, f, indent=1, default=str)
